@@ -158,6 +158,40 @@ def run_calls(tr, targets, status, irall, meta):
     return "\n".join(chunks)
 
 
+ROUTING_CLASSES = [("ImportanceSampler", "samplers.importance"), ("MiniPCN", "samplers.mcmc"), ("Emcee", "samplers.mcmc"),
+                   ("MiniPCNSMC", "samplers.smc.minipcn"), ("EmceeSMC", "samplers.smc.emcee"), ("BlackJAXSMC", "samplers.smc.blackjax")]
+
+
+def routing_file(tr, status):
+    """Constructor / sample() parameter names of every sampler class, read from the class definitions (MRO order)."""
+    import ast
+    lines = ["(* GENERATED on every run by /verif/tools/translate.py from the sampler class definitions in /repo/src/aspire. Do not edit. *)",
+             "From Coq Require Import List String.", "Import ListNotations.", "Open Scope string_scope.", "",
+             "Inductive sclass := " + " | ".join("C" + c for c, _ in ROUTING_CLASSES) + ".", ""]
+    init_rows, sample_rows, kw_rows = [], [], []
+    ok = True
+    detail = ""
+    for cname, module in ROUTING_CLASSES:
+        try:
+            mi = tr.find_method(module, cname, "__init__")
+            ms = tr.find_method(module, cname, "sample")
+            if mi is None or ms is None:
+                raise Untranslatable(f"{cname}: __init__ or sample not found")
+            pi = [a.arg for a in mi[1].args.args][1:] + [a.arg for a in mi[1].args.kwonlyargs]
+            ps = [a.arg for a in ms[1].args.args][1:] + [a.arg for a in ms[1].args.kwonlyargs]
+            init_rows.append(f"  | C{cname} => [" + "; ".join(f'"{p}"' for p in pi) + "]")
+            sample_rows.append(f"  | C{cname} => [" + "; ".join(f'"{p}"' for p in ps) + "]")
+            kw_rows.append(f"  | C{cname} => {'true' if ms[1].args.kwarg is not None else 'false'}")
+        except Exception as e:
+            ok = False
+            detail += f"{cname}: {e!r}; "
+    lines += ["Definition sig_init (c : sclass) : list string :=", "  match c with"] + init_rows + ["  end.", ""]
+    lines += ["Definition sig_sample (c : sclass) : list string :=", "  match c with"] + sample_rows + ["  end.", ""]
+    lines += ["Definition sample_has_var_kwargs (c : sclass) : bool :=", "  match c with"] + kw_rows + ["  end.", ""]
+    status["routing_signatures"] = (ok, detail)
+    return "\n".join(lines) + "\n" if ok else "(* signature extraction failed: " + detail + " *)\n"
+
+
 TRANSFORMS_HEADER = """(* GENERATED on every run by /verif/tools/translate.py from /repo/src/aspire/transforms.py (working tree). Do not edit.
    Per-row convention: x / y are ONE row (a list over the coordinates the transform acts on); `.sum(-1)` is the sum over
    coordinates; erf / erfinv are the scipy special functions (Section variables of the proofs). *)
@@ -303,6 +337,7 @@ def build(tr, status):
     body4 = run_transforms(tr, status, ir4, meta4)
     files["Transforms.v"] = TRANSFORMS_HEADER + "\n" + body4 + "\nEnd Transforms.\n"
     files["transforms_ir.json"] = json.dumps({"ir": ir4, "meta": meta4}, indent=0, default=str)
+    files["Routing.v"] = routing_file(tr, status)
     ir2, meta2 = {}, {}
     body2 = run_calls(tr, calls_targets(), status, ir2, meta2)
     files["Calls.v"] = CALLS_HEADER + "\n" + body2 + "\nEnd Calls.\n"
